@@ -29,6 +29,30 @@ Theorem C05_code_size : forall s cx base lbls c, compile cx base lbls s = Some c
 Proof. exact compile_size. Qed.
 Print Assumptions C05_code_size.
 
+(* Header variables are scoped per loop (allocated once per execution of the for statement, not per iteration):
+   the code is PushEnv ; X ; PopEnv, the back edge re-enters at the condition after PushEnv and init, and the targets
+   patched into this loop's LoopInfo are: break -> the PopEnv slot (= last slot of the construct, first statement
+   after the loop proper), continue -> the post statement, or the condition when there is none; both are reached
+   with upn = UpCost of the body block only (the header frame stays). *)
+Theorem C05_scoping_per_loop : forall cx base lbls n init cond post nb body c,
+  compile cx base lbls (SFor n init cond post nb body) = Some c -> n <> 0 ->
+  exists X cb,
+    c = IPush n :: X ++ [IPop] /\
+    In (IJmp 0 (base + 1 + length init)) X /\
+    (forall i, In i (map csimple init) -> exists k, nth_error X k = Some i /\ k < length init) /\
+    let cond_ip := base + 1 + length init in
+    let body_ip := cond_ip + (match cond with Some _ => 1 | None => 0 end) in
+    let post_ip := body_ip + bsize nb body in
+    let brk_ip := post_ip + length post + 1 in
+    let cont_ip := match post with [] => cond_ip | _ => post_ip end in
+    let cxb := mkFrame (cost nb) None [] :: mkFrame 1 (Some (mkLoop lbls brk_ip (Some cont_ip))) [] :: cx in
+    compile cxb (body_ip + cost nb) [] body = Some cb /\
+    resolve_break cxb None 0 = Some (cost nb, brk_ip) /\
+    resolve_cont cxb None 0 = Some (cost nb, cont_ip) /\
+    base < cond_ip /\ base < cont_ip /\ brk_ip = base + size (SFor n init cond post nb body) - 1.
+Proof. exact scoping_per_loop. Qed.
+Print Assumptions C05_scoping_per_loop.
+
 (* non-vacuity: a labelled loop with a switch, fallthrough, default in the middle, labelled continue from inside
    the switch, a block with a local; hypotheses hold and both sides compute the same trace *)
 Definition ex_prog : stmt :=
